@@ -240,7 +240,8 @@ func extractTarGz(tarGzFile, dest string) error {
 			return err
 		}
 		target := filepath.Join(dest, header.Name)
-		if !strings.HasPrefix(target, filepath.Clean(dest)+string(os.PathSeparator)) {
+		// An entry for the archive root itself ("./", as written by `tar -c .`) resolves to dest: allowed.
+		if cleanDest := filepath.Clean(dest); target != cleanDest && !strings.HasPrefix(target, cleanDest+string(os.PathSeparator)) {
 			return fmt.Errorf("%s: illegal file path", target)
 		}
 		switch header.Typeflag {
